@@ -43,7 +43,7 @@ const RULE_SEQ: &str = "histories are generated from splitmix(VERIF_SEED, proper
 pub const SPECS: &[PropSpec] = &[
     PropSpec { id: "C01", engine: Engine::Seq, profiles: &[(Profile::Breach, 70), (Profile::Chain, 15), (Profile::Resubmit, 15)], level: "exploration", quick_secs: 60, quick_runs: 30_000, thorough_secs: 900, rule: RULE_SEQ },
     PropSpec { id: "C02", engine: Engine::Seq, profiles: &[(Profile::Breach, 50), (Profile::Chain, 35), (Profile::Expiry, 15)], level: "exploration", quick_secs: 60, quick_runs: 30_000, thorough_secs: 900, rule: RULE_SEQ },
-    PropSpec { id: "C03", engine: Engine::Crash, profiles: &[(Profile::Breach, 50), (Profile::Chain, 20), (Profile::Expiry, 15), (Profile::Completion, 15)], level: "fault_enumeration", quick_secs: 75, quick_runs: 400, thorough_secs: 1200, rule: RULE_CRASH },
+    PropSpec { id: "C03", engine: Engine::Crash, profiles: &[(Profile::Breach, 50), (Profile::Chain, 20), (Profile::Expiry, 15), (Profile::Completion, 15)], level: "fault_enumeration", quick_secs: 75, quick_runs: 1100, thorough_secs: 1200, rule: RULE_CRASH },
     PropSpec { id: "C04", engine: Engine::Seq, profiles: &[(Profile::Chain, 75), (Profile::Completion, 15), (Profile::Breach, 10)], level: "exploration", quick_secs: 75, quick_runs: 20_000, thorough_secs: 1200, rule: RULE_SEQ },
     PropSpec { id: "C05", engine: Engine::Client, profiles: &[], level: "exploration", quick_secs: 60, quick_runs: 100_000, thorough_secs: 900, rule: RULE_CLIENT },
     PropSpec { id: "C06", engine: Engine::Seq, profiles: &[(Profile::Auth, 85), (Profile::Expiry, 15)], level: "exploration", quick_secs: 60, quick_runs: 30_000, thorough_secs: 900, rule: RULE_SEQ },
